@@ -189,6 +189,20 @@ func runC08(c *core.Ctx) {
 	} else {
 		c.Undischarged("C08-R1b", "anchor:RoundRobinProposer", err.Error())
 	}
+	// premise of the argued-safe entry for commons.ECDSAPubFromInterface: it is reached only from
+	// DiscV5Service.Node, and nothing in the node calls Service.Node (an unused interface method),
+	// so no peer-supplied identity key reaches the unchecked assertion.
+	if m, err := c.P.LookupFunc(ssv + "network/commons.ECDSAPubFromInterface"); err == nil {
+		whoMayCall(c, "C08-R1b", "commons.ECDSAPubFromInterface", mapOf(m), nil, map[string]string{
+			"ssv/network/discovery.DiscV5Service.Node": "itself unreachable (next obligation)",
+		})
+	} else {
+		c.Undischarged("C08-R1b", "anchor:ECDSAPubFromInterface", err.Error())
+	}
+	if t, names := methodTargets(c, "C08-R1b", ssv+"network/discovery.NodeProvider.Node"); t != nil {
+		sites := whoMayCall(c, "C08-R1b", "discovery.NodeProvider.Node", t, names, map[string]string{})
+		c.Decide(len(sites) == 0, "C08-R1b", "discovery.NodeProvider.Node|no caller", "", "no call site in the node", "discovery.NodeProvider.Node now has callers: a peer's identity key reaches the unchecked key-type assertion in ECDSAPubFromInterface")
+	}
 	c.Count("functions_scanned_for_crash_sites", len(funcs))
 	sites := enumerateCrashSites(c, funcs)
 	c.Count("crash_sites", len(sites))
@@ -433,14 +447,9 @@ func dischargeImplicit(c *core.Ctx, s crashSite, fnName, pos string, facts ens.F
 // argued-safe table: sites whose operand is not network controlled, one reason each.
 func argSafe(fnName, kind string) string {
 	table := map[string]string{
-		"ssv/network/commons.ValidatorSubnet|divisor":                          "",
-		"ssv/message/validation.messageValidator.validateSSVMessage|toarray":   "",
-		"ssv/message/validation.messageValidator.consensusState|toarray":       "MessageID.GetPubKey() slices a fixed 56-byte array into exactly 48 bytes",
-		"ssv/message/validation.messageValidator.currentEstimatedRound|divisor": "",
-		"ssv/message/validation.messageValidator.waitAfterSlotStart|divisor":   "",
-		"ssv/network/records.Subnets.String|constindex":                        "",
-		"ssv/network/commons.ECDSAPrivFromInterface|assert":                    "converts the node's own identity key (generated or loaded as secp256k1 by the node itself); not a decoder of peer data",
-		"ssv/network/commons.ECDSAPubFromInterface|assert":                     "observation, outside this property's decoders: called by discovery with a connected peer's libp2p identity key; libp2p peers of this network use secp256k1 identities, a peer with another key type would make this assertion fail — recorded in DESIGN.md, not a message/record/handshake decoder",
+		"ssv/message/validation.messageValidator.consensusState|toarray": "MessageID.GetPubKey() slices a fixed 56-byte array into exactly 48 bytes",
+		"ssv/network/commons.ECDSAPrivFromInterface|assert":              "converts the node's own identity key (generated or loaded as secp256k1 by the node itself); not a decoder of peer data",
+		"ssv/network/commons.ECDSAPubFromInterface|assert":               "reached only from DiscV5Service.Node, which nothing in the node calls (both checked by who-may-call obligations); if it were called with a peer's identity key of another type the assertion would fail — recorded as an observation in DESIGN.md",
 	}
 	return table[fnName+"|"+kind]
 }
